@@ -143,11 +143,19 @@ def execute(plan):
         R[k] = a
         if int(a.counts["fun"] + a.counts["jac"]) > last_needed and k >= 2 and (k - 2) in R and int(R[k - 2].counts["fun"] + R[k - 2].counts["jac"]) > last_needed:
             break  # two references beyond the last callback are enough
+    # an iteration whose line search fails without a single evaluation leaves the count unchanged:
+    # successive callbacks with one count are successive iterations with that count
     by_evals = {}
     for k in sorted(R):
-        by_evals.setdefault(int(R[k].counts["fun"] + R[k].counts["jac"]), k)
+        by_evals.setdefault(int(R[k].counts["fun"] + R[k].counts["jac"]), []).append(k)
+    seen_evals = Counter()
     for rec in A.states:
-        rec["iter"] = by_evals.get(rec["evals_before"])
+        cands = by_evals.get(rec["evals_before"], [])
+        j = seen_evals[rec["evals_before"]]
+        seen_evals[rec["evals_before"]] += 1
+        rec["iter"] = cands[j] if j < len(cands) else None
+        if len(cands) > 1:
+            stats["probe.iterations_with_equal_evaluation_count"] += 1
         if rec["iter"] is None:
             stats["nj.state_without_reference_run"] += 1
 
